@@ -1,11 +1,13 @@
 #![allow(unused)]
 
 use crate::sps::syntax::*;
-use std::collections::HashMap;
+use std::collections::BTreeMap;
 use zydeco_statics::surface_syntax::ScopedArena;
 use zydeco_syntax::{BuiltinValueRole, FloatOperation, IntegerOperation};
 
-pub type BuiltinMap = HashMap<String, Builtin>;
+/// Builtins keyed by host name. The map is iterated into rendered stack IR and into the
+/// externs of emitted assembly, so its order must not depend on a process's hash keys.
+pub type BuiltinMap = BTreeMap<String, Builtin>;
 
 #[derive(Clone, Debug, thiserror::Error)]
 pub enum BuiltinPackageLowerError {
